@@ -63,3 +63,51 @@ func verifC09KeySets() {
 		vReach("passthrough")
 	}
 }
+
+// verifC09Retry: the retried hello of an accepted connection is handled with the
+// key that opened the first hello, whatever other keys (same config id, other
+// public name, before or after it) are configured.
+func verifC09Retry() {
+	name := []byte("pub.example")
+	all := [][2]uint16{{1, 1}}
+	id := vByte()
+	target := vMakeKey(0, id, all, name)
+	otherID := vByte() // may collide
+	other := vMakeKey(1, otherID, all, []byte("other.example"))
+	var keys []Key
+	switch vInt(0, 2) {
+	case 0:
+		keys = []Key{target.key()}
+	case 1:
+		keys = []Key{other.key(), target.key()}
+	case 2:
+		keys = []Key{target.key(), other.key()}
+	}
+	outer := vHello{version: 0x0303, random: vBytes(32), sid: vBytes(1), suites: []byte{0x13, 0x01}, comp: []byte{0}}
+	outer.exts = []vExt{vSNI(name), vVersions(0x0304), {0xfe0d, nil}}
+	sn := vBytes(2)
+	inner := vHello{version: 0x0303, random: vBytes(32), suites: []byte{0x13, 0x02}, comp: []byte{0},
+		exts: []vExt{vSNI(sn), vECHInner(), vVersions(0x0304)}}
+	s1 := vSeal(target, 1, 1, outer, 2, vEncodeInner(inner, 0))
+	tr := newVTransport(s1.outer.record())
+	c, err := NewConn(context.Background(), tr, WithKeys(keys))
+	vAssert(err == nil && c.ECHAccepted(), "first hello accepted whatever the other keys are")
+	buf := make([]byte, 600)
+	_, _ = c.Read(buf)
+	hrr := vServerHello(vHRRRandom, outer.sid)
+	n, err := c.Write(hrr)
+	vAssert(err == nil && n == len(hrr), "HelloRetryRequest forwarded")
+	outer2 := outer
+	outer2.exts = []vExt{vSNI(name), vVersions(0x0304), {51, vBytes(1)}, {0xfe0d, nil}}
+	inner2 := inner
+	inner2.exts = []vExt{vSNI(sn), vECHInner(), vVersions(0x0304), {51, vBytes(1)}}
+	s2 := vSealWith(s1.sender, []byte{}, id, 1, 1, outer2, 3, vEncodeInner(inner2, 0))
+	tr.in = append(tr.in, s2.outer.record()...)
+	rn, err := c.Read(buf)
+	vAssert(err == nil, "retried hello accepted whatever the other keys are")
+	want := inner2
+	want.sid = outer2.sid
+	wantMsg := vHandshake(want.body())
+	vAssert(rn == 5+len(wantMsg) && vBytesEq(buf[5:rn], wantMsg), "retried hello replaced by its inner hello")
+	vReach("retried")
+}
